@@ -376,6 +376,7 @@ func (t *runner) genTUMap(csr charcode.CodeSpaceRange, runs, maxLen int) map[cha
 		empty := r.IntN(25) == 0
 		// the way successive values are produced
 		mode := r.IntN(5) // 0,1: +1 skipping to FFFD like nextString pairwise; 2: +1 jumping over the gap; 3: from first; 4: noise
+		middle := r.IntN(8) == 0 // now and then an extra rune between the prefix and the last rune
 		first := last
 		for j, c := range codes {
 			x := last
@@ -383,6 +384,9 @@ func (t *runner) genTUMap(csr charcode.CodeSpaceRange, runs, maxLen int) map[cha
 				x = 0xFFFD
 			}
 			s := string(append(append([]rune{}, prefix...), x))
+			if middle && j > 0 && r.IntN(3) == 0 {
+				s = string(append(append(append([]rune{}, prefix...), baseRunes[r.IntN(len(baseRunes))]), x))
+			}
 			if empty {
 				s = ""
 			}
@@ -487,10 +491,48 @@ func (cs *cidCase) wantNotdef(c []byte) uint32 {
 	return 0
 }
 
-// the notdef CID the root alone would give (what LookupCID returns today when a parent exists)
-func (cs *cidCase) rootNotdef(c []byte) uint32 {
-	v, _ := ndLookupLevel(&cs.Levels[0], c)
-	return v
+// listedEntries re-enacts which entries SetMapping keeps at each level (it leaves out an entry when
+// Parent.LookupCID already gives its CID, be it from a mapping or from notdef entries).  Used for the
+// enumeration (an omitted entry need not be listed) and to recognise the known finding
+// cid-setmapping-omits-entry-shadowed-by-own-notdef; the expected LOOKUP results never come from here.
+func (cs *cidCase) listedEntries(codec *charcode.Codec) []map[charcode.Code]uint32 {
+	var ent []map[charcode.Code]uint32
+	for i := range cs.Levels {
+		m := map[charcode.Code]uint32{}
+		for k, v := range cs.Levels[i].Data {
+			if i > 0 {
+				sub := cidCase{CSR: cs.CSR, Levels: cs.Levels[:i]}
+				if sub.chainAnswer(ent, codec.AppendCode(nil, k)) == uint32(v) {
+					continue
+				}
+			}
+			m[k] = uint32(v)
+		}
+		ent = append(ent, m)
+	}
+	return ent
+}
+
+// chainAnswer: nearest listed entry, else the nearest notdef entry
+func (cs *cidCase) chainAnswer(ent []map[charcode.Code]uint32, c []byte) uint32 {
+	if inCSR(cs.CSR, c) {
+		code := codeOf(c)
+		for j := len(ent) - 1; j >= 0; j-- {
+			if v, ok := ent[j][code]; ok {
+				return v
+			}
+		}
+	}
+	return cs.wantNotdef(c)
+}
+
+func isListed(ent []map[charcode.Code]uint32, code charcode.Code) bool {
+	for _, m := range ent {
+		if _, ok := m[code]; ok {
+			return true
+		}
+	}
+	return false
 }
 
 func (cs *cidCase) wantMapped(c []byte) (uint32, bool) {
@@ -685,31 +727,28 @@ func with(m map[string]any, kv ...any) map[string]any {
 // checkCIDFile compares a File (freshly built or extracted) with the original maps.
 func (t *runner) checkCIDFile(cs *cidCase, f *cmap.File, codec *charcode.Codec, stage string, desc map[string]any) {
 	e := t.e
-	childND := false
-	for i := 1; i < len(cs.Levels); i++ {
-		if len(cs.Levels[i].NdOne)+len(cs.Levels[i].NdRng) > 0 {
-			childND = true
-		}
-	}
+	ent := cs.listedEntries(codec)
 	for _, p := range cs.Probes {
 		got := uint32(f.LookupCID(p))
 		if want, ok := cs.wantMapped(p); ok {
 			if got != want {
+				if !isListed(ent, codeOf(p)) && got == cs.wantNotdef(p) {
+					// the known finding: SetMapping left the entry out because the parent answers it from
+					// the parent's notdef entries, and the file's own notdef entries answer differently
+					e.Fail("cid-setmapping-omits-entry-shadowed-by-own-notdef", fmt.Sprintf("LookupCID(<%x>) = %d, the map says %d: the entry was omitted "+
+						"because Parent.LookupCID gives %d through notdef entries, but the file's own notdef entries apply first (%s)", p, got, want, want, stage),
+						with(desc, "code", common.Hex(p), "got", got, "want", want))
+					continue
+				}
 				e.Fail("cid-lookup-"+stage, fmt.Sprintf("LookupCID(<%x>) = %d, the map says %d (%s)", p, got, want, stage),
 					with(desc, "code", common.Hex(p), "got", got, "want", want))
 				return
 			}
 			continue
 		}
+		// unmapped: the notdef entries of the file itself apply first, then those of its parents
 		want := cs.wantNotdef(p)
 		if got != want {
-			if childND && got == cs.rootNotdef(p) {
-				// the known finding: notdef entries of a file that has a parent are not consulted
-				e.Fail("cid-notdef-of-child-ignored", fmt.Sprintf("LookupCID(<%x>) = %d for an unmapped code, LookupNotdefCID gives %d: "+
-					"the notdef entries of a file with a parent are skipped (%s)", p, got, uint32(f.LookupNotdefCID(p)), stage),
-					with(desc, "code", common.Hex(p), "got", got, "want", want))
-				continue
-			}
 			e.Fail("cid-unmapped-"+stage, fmt.Sprintf("LookupCID(<%x>) = %d for an unmapped code, notdef result is %d (%s)", p, got, want, stage),
 				with(desc, "code", common.Hex(p), "got", got, "want", want))
 			return
@@ -724,25 +763,7 @@ func (t *runner) checkCIDFile(cs *cidCase, f *cmap.File, codec *charcode.Codec, 
 	// not map that answer is the notdef CID, so such an entry may be absent from the enumeration
 	// (lookup is unaffected: it was checked above for every mapped code)
 	wantAll := cs.wantAll()
-	listed := map[charcode.Code]bool{}
-	for i := range cs.Levels {
-		for k, v := range cs.Levels[i].Data {
-			if i == 0 {
-				listed[k] = true
-				continue
-			}
-			sub := cidCase{CSR: cs.CSR, Levels: cs.Levels[:i]}
-			c := codec.AppendCode(nil, k)
-			below, ok := sub.wantMapped(c)
-			if !ok {
-				below = sub.wantNotdef(c)
-			}
-			if below != uint32(v) {
-				listed[k] = true
-			}
-		}
-	}
-	mayOmit := func(k charcode.Code) bool { return !listed[k] }
+	mayOmit := func(k charcode.Code) bool { return !isListed(ent, k) }
 	if d := diffCID(collectCID(f, codec), wantAll, mayOmit); d != "" {
 		e.Fail("cid-all-"+stage, "All() differs from the map: "+d+" ("+stage+")", desc)
 	}
@@ -1302,7 +1323,7 @@ func (t *runner) genCIDCase(class string) *cidCase {
 				}
 			}
 		}
-		if i == 0 && r.IntN(2) == 0 {
+		if (i == 0 && r.IntN(2) == 0) || (i > 0 && r.IntN(4) == 0) {
 			box := cs.CSR[r.IntN(len(cs.CSR))]
 			l.NdRng = append(l.NdRng, ndRange{First: box.Low, Last: box.High, Value: uint32(1 + r.IntN(50))})
 			if r.IntN(2) == 0 {
@@ -1385,6 +1406,11 @@ func (t *runner) corpus() {
 		{0x41: "\uD7FF", 0x42: "\uFFFD", 0x43: "\uFFFD"},
 		{0x41: "", 0x42: "", 0x43: "x", 0x44: ""},
 		{0xFE: "a", 0xFF: "b", 0x00: "c"},
+		// same first runes and consecutive last runes, but something else in between
+		{0x41: "ab", 0x42: "aXc", 0x43: "ad"},
+		{0x41: "b", 0x42: "Xc", 0x43: "d", 0x44: "e"},
+		{0x41: "pqb", 0x42: "pc", 0x43: "pqd"},
+		{0x41: "\U0001F600x", 0x42: "\U0001F600\U0001F600y", 0x43: "\U0001F600z"},
 	} {
 		t.runTU(&tuCase{CSR: charcode.Simple, Levels: []map[charcode.Code]string{m}, Probes: simpleProbes(0x3f, 0x46), Class: "corpus"}, true)
 	}
@@ -1413,13 +1439,43 @@ func (t *runner) corpus() {
 // the finding: notdef entries of a file that has a parent are not consulted by LookupCID
 func (t *runner) childNotdef() {
 	r := t.e.Rand
-	cs := &cidCase{CSR: charcode.Simple, Class: "child-notdef"}
 	lo := byte(0x20 + r.IntN(0x20))
+	nd := uint32(1 + r.IntN(9))
+	// F31: the notdef entries of a file that has a parent apply to its unmapped codes
+	cs := &cidCase{CSR: charcode.Simple, Class: "child-notdef"}
 	cs.Levels = []cidLevel{
 		{Data: map[charcode.Code]cid.CID{0x41: 1, 0x42: 2}, HasROS: true},
-		{Data: map[charcode.Code]cid.CID{0x50: 9}, HasROS: true, NdRng: []ndRange{{First: []byte{lo}, Last: []byte{lo + 0x40}, Value: uint32(1 + r.IntN(9))}}},
+		{Data: map[charcode.Code]cid.CID{0x50: 9}, HasROS: true, NdRng: []ndRange{{First: []byte{lo}, Last: []byte{lo + 0x40}, Value: nd}}},
 	}
 	cs.Probes = [][]byte{{0x41}, {0x50}, {lo}, {lo + 0x40}, {lo + 0x41}, {lo - 1}}
+	t.runCID(cs, true)
+	// three levels: notdef of the middle and of the root, the nearest one wins
+	cs = &cidCase{CSR: charcode.Simple, Class: "child-notdef"}
+	cs.Levels = []cidLevel{
+		{Data: map[charcode.Code]cid.CID{0x41: 1}, HasROS: true, NdRng: []ndRange{{First: []byte{0}, Last: []byte{0xff}, Value: 40}}},
+		{Data: map[charcode.Code]cid.CID{0x50: 9}, HasROS: true, NdRng: []ndRange{{First: []byte{lo}, Last: []byte{lo + 0x40}, Value: nd}},
+			NdOne: []ndRange{{First: []byte{lo + 1}, Last: []byte{lo + 1}, Value: 77}}},
+		{Data: map[charcode.Code]cid.CID{0x51: 10}, HasROS: true, WMode: 1},
+	}
+	cs.Probes = [][]byte{{0x41}, {0x50}, {0x51}, {lo}, {lo + 1}, {lo + 0x40}, {lo + 0x41}, {lo - 1}, {0xff}}
+	t.runCID(cs, true)
+	// a notdef range over more than MaxInt32 codes (LookupNotdefCID must not go through rangeIndex)
+	full := charcode.CodeSpaceRange{{Low: []byte{0, 0, 0, 0}, High: []byte{0xff, 0xff, 0xff, 0xff}}}
+	cs = &cidCase{CSR: full, Class: "wide-notdef"}
+	cs.Levels = []cidLevel{
+		{Data: map[charcode.Code]cid.CID{0x04030201: 1}, HasROS: true, NdRng: []ndRange{{First: []byte{0, 0, 0, 0}, Last: []byte{0xff, 0xff, 0xff, 0xff}, Value: 5}}},
+		{Data: map[charcode.Code]cid.CID{0x04030202: 2}, HasROS: true, NdRng: []ndRange{{First: []byte{0x80, 0, 0, 0}, Last: []byte{0xff, 0xff, 0xff, 0xff}, Value: 6}}},
+	}
+	cs.Probes = [][]byte{{1, 2, 3, 4}, {2, 2, 3, 4}, {0, 0, 0, 0}, {0x7f, 0xff, 0xff, 0xff}, {0x80, 0, 0, 0}, {0x80, 0, 0, 1}, {0xff, 0xff, 0xff, 0xff}, {0xc0, 1, 2, 3}}
+	t.runCID(cs, true)
+	// the known finding: 50 -> 0 is omitted because the parent answers 0 (no notdef entries there), and
+	// the file's own notdef range then answers with its CID
+	cs = &cidCase{CSR: charcode.Simple, Class: "shadowed-omission"}
+	cs.Levels = []cidLevel{
+		{Data: map[charcode.Code]cid.CID{0x41: 1}, HasROS: true},
+		{Data: map[charcode.Code]cid.CID{0x50: 0, 0x51: 9}, HasROS: true, NdRng: []ndRange{{First: []byte{lo}, Last: []byte{lo + 0x40}, Value: nd}}},
+	}
+	cs.Probes = [][]byte{{0x41}, {0x50}, {0x51}, {lo}, {lo - 1}}
 	t.runCID(cs, true)
 }
 
